@@ -212,6 +212,24 @@ class Ctx:
                               **({"coverage": r.coverage} if r.coverage else {})})
         return r
 
+    def tlc_many(self, jobs: list[tuple], par: int = 6) -> list[TlcResult]:
+        """jobs: [(module, cfg, kwargs)] run concurrently (each TLC single-worker unless told otherwise)."""
+        from concurrent.futures import ThreadPoolExecutor
+        def one(j):
+            m, c, kw = j
+            kw = dict(kw); kw.setdefault("scratch", self.scratch)
+            return run_tlc(m, c, **kw)
+        with ThreadPoolExecutor(par) as ex:
+            rs = list(ex.map(one, jobs))
+        for (m, c, kw), r in zip(jobs, rs):
+            if not kw.get("expect_violation"):
+                self.states += r.distinct
+                self.transitions += r.generated
+            self.tlc_runs.append({"module": m, "cfg": c, "distinct": r.distinct, "generated": r.generated, "depth": r.depth,
+                                  "wall_s": round(r.wall_s, 2), "violated": r.violated, "cases": len(r.cases),
+                                  **({"sensitivity": True} if kw.get("expect_violation") else {})})
+        return rs
+
     def sensitivity(self, module: str, cfg: str, **kw) -> None:
         """The model with a named deviation switched on must be refuted by TLC."""
         kw.setdefault("scratch", self.scratch)
